@@ -146,6 +146,12 @@ def run(ctx):
                         j["monitors"] = MON
                         j["seams"] = True
                         base.append(j)
+    # starting points whose mesh-snapped image crosses the constraint boundary (the snapped point is what gets evaluated)
+    from .c02 import start_cells
+    for j in start_cells(seeds[0]):
+        j = dict(j, monitors=MON)
+        j.pop("expect", None)
+        base.append(j)
     st = explore(base, ["ans"], 0, sink, name="runs/b0")
     adv = [job(D, "lin", "adv", seeds[0], opts={"tol_mesh": 2.0**-4}) for D in (1, 2)]
     # success-rich answer policy: the mesh is re-expanded again and again next to off-grid bounds (start on the upper bound)
